@@ -7319,6 +7319,10 @@ fn eval_block(env: &mut Env, expr_value_is_used: bool, block: &Block) {
 }
 
 fn eval_break(env: &mut Env, expr_value_is_used: bool) {
+    // Whether the value of the loop we're leaving is used, e.g. when
+    // the loop is an argument of a call.
+    let mut loop_value_is_used = expr_value_is_used;
+
     // Pop all the currently evaluating expressions until we are no
     // longer inside the innermost loop.
     while let Some((expr_state, expr)) = env.current_frame_mut().exprs_to_eval.pop() {
@@ -7330,6 +7334,8 @@ fn eval_break(env: &mut Env, expr_value_is_used: bool) {
 
         match &expr.expr_ {
             Expression_::While(_, _) => {
+                loop_value_is_used = expr.value_is_used;
+
                 // The loop body pushed a bindings block that its
                 // DoneRunBlock step would have popped.
                 if matches!(
@@ -7346,6 +7352,8 @@ fn eval_break(env: &mut Env, expr_value_is_used: bool) {
                 break;
             }
             Expression_::ForIn(_, _, _) => {
+                loop_value_is_used = expr.value_is_used;
+
                 // We're exiting the loop early, we need to follow the
                 // pattern of `eval_for_in` and maintain stack
                 // discipline for values pushed for the loop body.
@@ -7375,7 +7383,7 @@ fn eval_break(env: &mut Env, expr_value_is_used: bool) {
     }
 
     // Loops always evaluate to unit.
-    if expr_value_is_used {
+    if loop_value_is_used {
         env.push_value(Value::unit());
     }
 }
